@@ -366,6 +366,22 @@ theorem Kdrop_trans {K : Ctx} {g : Nat} : Trans K (Kdrop K g) g (g + 1) := by
   have hc2 : c < g := hc.2
   exact ⟨rfl, ⟨hc.1, Nat.ne_of_lt hc2⟩, Nat.lt_succ_of_lt hc2⟩
 
+theorem Froz.drop {K : Ctx} (wf : K.WF) {hA hB : Heap} (f : Froz K hA hB) {g : Nat} (hg : K.fz ≤ g)
+    (hgA : K.fzA ≤ g + K.d) (hm : K.m ≤ g) : Froz (Kdrop K g) hA hB := by
+  refine ⟨f.fzB, f.fzA, f.aA, f.aB, f.oA, f.oB, ?_, ?_, f.arrB, f.arrA, f.objB, f.objA⟩
+  · intro i hi hd
+    have hi' : i < K.fz := hi
+    refine f.cellB i hi' (fun hD => hd ⟨hD, ?_⟩)
+    omega
+  · intro j hj hd
+    have hj' : j < K.fzA := hj
+    refine f.cellA j hj' (fun i hD e => ?_)
+    by_cases hig : i = g
+    · subst hig
+      have := wf.shift i hm
+      omega
+    · exact hd i ⟨hD, hig⟩ e
+
 /-- both runs allocate a cell for the detached `$`; the two cells hold unrelated values and drop
     out of the relation -/
 theorem SR.garbage {K : Ctx} (wf : K.WF) {sA sB : St} (hs : SR (mainX K) sA sB) (vA vB : Val) :
@@ -374,7 +390,9 @@ theorem SR.garbage {K : Ctx} (wf : K.WF) {sA sB : St} (hs : SR (mainX K) sA sB) 
       { sB with heap := (sB.heap.alloc vB).2, ruleRoot := some (sB.heap.alloc vB).1 } := by
   have tr := Kdrop_trans (K := K) (g := sB.heap.cells.size)
   have hszc : sA.heap.cells.size = sB.heap.cells.size + K.d := hs.heap.szc
-  refine ⟨⟨?_, ?_, hs.heap.sza, hs.heap.ale, hs.heap.szo, hs.heap.ole, ?_, ?_, ?_⟩, ?_, (fun h => by cases h), ?_,
+  have hfz : Froz (Kdrop K sB.heap.cells.size) (sA.heap.alloc vA).2 (sB.heap.alloc vB).2 :=
+    (hs.heap.froz.alloc vA vB).drop wf hs.heap.froz.fzB (by have h1 : K.fzA ≤ sA.heap.cells.size := hs.heap.froz.fzA; omega) hs.heap.mle
+  refine ⟨⟨?_, ?_, hs.heap.sza, hs.heap.ale, hs.heap.szo, hs.heap.ole, ?_, ?_, ?_, hfz⟩, ?_, (fun h => by cases h), ?_,
     hs.out, hs.faults⟩
   · show (sA.heap.alloc vA).2.cells.size = (sB.heap.alloc vB).2.cells.size + K.d
     rw [size_alloc, size_alloc, hszc]; omega
@@ -560,8 +578,8 @@ theorem mainRel_init (prog : Program) (T : SelTok) (E : Expr) :
   obtain ⟨L, hfr, ok⟩ := newEvaluator_init prog (withSel prog T E)
   refine ⟨Kid prog (withSel prog T E), Kid_wf _ _, rfl, rfl, rfl, rfl, ?_, by rw [hfr]; rfl⟩
   have hfn : ∀ i : Nat, prog.functions[i]? = (withSel prog T E).functions[i]? := fun _ => rfl
-  refine ⟨⟨rfl, Nat.zero_le _, rfl, Nat.zero_le _, rfl, Nat.zero_le _, ?_, ?_, ?_⟩, ?_, (fun h => by cases h),
-    (fun _ => trivial), rfl, rfl⟩
+  refine ⟨⟨rfl, Nat.zero_le _, rfl, Nat.zero_le _, rfl, Nat.zero_le _, ?_, ?_, ?_, Froz.trivial rfl rfl rfl rfl⟩, ?_,
+    (fun h => by cases h), (fun _ => trivial), rfl, rfl⟩
   · intro i _
     show ValR _ _ ((newEvaluator prog Heap.empty [] 0).heap.get (id i)) _
     exact valR_plain_main rfl rfl rfl (ok.plain i) _
@@ -641,10 +659,11 @@ theorem processRoots_single (prog : Program) (c : CellId) (s : St) :
 
 section Files
 
-variable (prog : Program) (T : SelTok) (E : Expr) (hE : selE E = true) (tbl : RuleTable) (sel : Bytes)
+variable (prog : Program) (T : SelTok) (E : Expr) (hE : selX (fun _ => false) E = true) (hwfE : E.wfB = true)
+  (tbl : RuleTable) (sel : Bytes)
   (hparse : parseExpressionSrc tbl sel = .ok E) (src : Bytes) (hef : EndOK prog)
 
-include hE hparse hef in
+include hE hwfE hparse hef in
 theorem processFile_rel (file : InputFile) : ∀ (fuel : Nat) (data : Bytes) (sA sB : St),
     MainRel prog (withSel prog T E) sA sB →
     StepRel prog (withSel prog T E) sel src
@@ -686,7 +705,7 @@ theorem processFile_rel (file : InputFile) : ∀ (fuel : Nat) (data : Bytes) (sA
           have hlen1 : s1B.frames.length = 1 := by rw [hflB]; exact hlen
           dsimp only
           simp only [List.isEmpty_cons, List.isEmpty_nil, Bool.false_eq_true, ↓reduceIte]
-          have hj := junction prog T E hE tbl sel hparse v wf h0 h0' hKA hKB hs1 hlen1
+          have hj := junction prog T E hE hwfE tbl sel hparse v wf h0 h0' hKA hKB hs1 hlen1
           obtain ⟨vB, sBv, eB1, _, _⟩ := conv_ok v s1B
           have hvb := congrFun (valueB_eq prog T E v) s1B
           simp only [bind, EM.bind, eB1, Jqawk.newCell] at hvb ⊢
@@ -765,14 +784,14 @@ theorem processFile_rel (file : InputFile) : ∀ (fuel : Nat) (data : Bytes) (sA
                         exact FinRel.of_SR sel src hs4 trivial
                       | continue_ => exact processFile_rel file fuel rest s4A s4B hrel4
 
-include hE hparse hef in
+include hE hwfE hparse hef in
 theorem processFiles_rel : ∀ (files : List InputFile) (sA sB : St), MainRel prog (withSel prog T E) sA sB →
     StepRel prog (withSel prog T E) sel src
       (processFiles prog src tbl [sel] files sA) (processFiles (withSel prog T E) src tbl [] files sB)
   | [], sA, sB, h => h
   | f :: rest, sA, sB, h => by
     unfold processFiles
-    have h1 := processFile_rel prog T E hE tbl sel hparse src hef f (f.data.length + 2) f.data sA sB h
+    have h1 := processFile_rel prog T E hE hwfE tbl sel hparse src hef f (f.data.length + 2) f.data sA sB h
     revert h1
     generalize processFile prog src tbl [sel] f (f.data.length + 2) f.data sA = ra
     generalize processFile (withSel prog T E) src tbl [] f (f.data.length + 2) f.data sB = rb
@@ -793,7 +812,7 @@ def RunRel (sel src : Bytes) (rA rB : RunResult) : Prop :=
     (OutcomeRel sel src rA.outcome rB.outcome ∧ rA.out = rB.out ∧
       (rA.outcome = .ok → rA.st.bind getRootJson = rB.st.bind getRootJson))
 
-omit hE hparse hef in
+omit hE hwfE hparse hef in
 theorem RunRel.finish {sel src : Bytes} {oA oB : Outcome} {sA sB : St} (h : FinRel sel src oA sA oB sB) :
     RunRel sel src (finishRun oA sA) (finishRun oB sB) := by
   rcases h with h | h | ⟨h1, h2, h3⟩
@@ -803,7 +822,7 @@ theorem RunRel.finish {sel src : Bytes} {oA oB : Outcome} {sA sB : St} (h : FinR
       show (some sA).bind getRootJson = (some sB).bind getRootJson
       simp only [Option.bind_some]; exact h3 e⟩)
 
-omit hE hparse hef in
+omit hE hwfE hparse hef in
 theorem special_rel (k : RuleKind) (hk : k ≠ .beginFile) {sA sB : St} (h : MainRel prog (withSel prog T E) sA sB) :
     match evalSpecialRules prog (newCell (.nil none)) (rulesOf prog k) sA,
           evalSpecialRules (withSel prog T E) (newCell (.nil none)) (rulesOf (withSel prog T E) k) sB with
@@ -841,7 +860,7 @@ theorem special_rel (k : RuleKind) (hk : k ≠ .beginFile) {sA sB : St} (h : Mai
     | ok _ _ => exact hsim.elim
     | err eB sB' => exact ⟨hsim.2.1, K, hsim.2.2.1⟩
 
-omit hE hparse hef in
+omit hE hwfE hparse hef in
 theorem runEnd_rel {sA sB : St} (h : MainRel prog (withSel prog T E) sA sB) :
     RunRel sel src (runEnd prog src sA) (runEnd (withSel prog T E) src sB) := by
   unfold runEnd
@@ -867,11 +886,11 @@ theorem runEnd_rel {sA sB : St} (h : MainRel prog (withSel prog T E) sA sB) :
       obtain ⟨rfl, K, hs⟩ := h1
       exact RunRel.finish (FinRel.of_SR sel src hs (OutcomeRel.errOutcome sel src eA))
 
-include hE hparse hef in
+include hE hwfE hparse hef in
 theorem runFiles_rel (files : List InputFile) {sA sB : St} (h : MainRel prog (withSel prog T E) sA sB) :
     RunRel sel src (runFiles prog src tbl [sel] files sA) (runFiles (withSel prog T E) src tbl [] files sB) := by
   unfold runFiles
-  have h1 := processFiles_rel prog T E hE tbl sel hparse src hef files sA sB h
+  have h1 := processFiles_rel prog T E hE hwfE tbl sel hparse src hef files sA sB h
   revert h1
   generalize processFiles prog src tbl [sel] files sA = ra
   generalize processFiles (withSel prog T E) src tbl [] files sB = rb
@@ -886,7 +905,7 @@ theorem runFiles_rel (files : List InputFile) {sA sB : St} (h : MainRel prog (wi
     | done sB' => cases h1; exact .inl rfl
     | finished oB sB' => exact RunRel.finish h1
 
-include hE hparse hef in
+include hE hwfE hparse hef in
 /-- **`-r E` against `BEGINFILE { $ = E }`, whole runs** -/
 theorem runProgram_rel (files : List InputFile) :
     RunRel sel src (runProgram prog src tbl [sel] files)
@@ -910,7 +929,7 @@ theorem runProgram_rel (files : List InputFile) :
       | exit =>
         obtain ⟨K, _, _, _, _, _, hs, _⟩ := hrel
         exact RunRel.finish (FinRel.of_SR sel src hs trivial)
-      | continue_ => exact runFiles_rel prog T E hE tbl sel hparse src hef files hrel
+      | continue_ => exact runFiles_rel prog T E hE hwfE tbl sel hparse src hef files hrel
   | err eA sA' =>
     cases rb with
     | oof => exact .inr (.inl rfl)
